@@ -52,8 +52,13 @@ class Check(HCheck):
             al.unrule(A),
             al.REOPEN,
             al.clear("subdomain", {Ax: "path2"}),
+            al.clear("domain", {}),
+            al.page(Awx),  # three hosts: the domain and subdomain defaults differ on it
         ]
+        seq = [al.page(Ax, True), al.page(Awx), al.links((Ax, Ab), (Ab, Ax), (Ax, Ab)), al.create(Ax), al.delete(0), al.REOPEN, al.clear("subdomain", {Ax: "path2"}), al.clear("domain", {})]
         return [
+            # every sequence over a small alphabet, no merging of byte-equal states
+            Space(Cfg("domain"), seq, 5 if thorough else 4, name="life/all-sequences", dedup=False),
             Space(Cfg("domain"), ops, 5 if thorough else 4, name="life/domain"),
             Space(Cfg("never", {A: "path2"}), ops, 4 if thorough else 3, roots=[al.R0, al.R1], name="life/never+path2"),
         ]
